@@ -461,6 +461,17 @@ class Oracle:
             return self.mentions(k[2], names)
         return False
 
+    def has_open(self, k):
+        if k is None:
+            return False
+        if k[0] == '?':
+            return True
+        if k[0] == 'P':
+            return any(self.has_open(a) for a in k[2])
+        if k[0] == 'W':
+            return self.has_open(k[2])
+        return False
+
     def supers(self, k):
         """declared direct supertypes of a type (class table for user classes, the type object's own list otherwise)"""
         if k is None:
@@ -666,7 +677,7 @@ class Oracle:
         for fa, aa, v in zip(fargs, aargs, variances):
             if not self.mentions(fa, tv):
                 continue
-            if fa[0] == 'W' or aa is None or aa[0] == 'W' or v != 0:
+            if fa[0] == 'W' or aa is None or aa[0] in 'W?' or v != 0:
                 self._soft(out, fa, tv)
             elif fa[0] == 'V':
                 self._slot(out, fa[1])['exact'].add(aa)
@@ -699,6 +710,9 @@ class Oracle:
         """a value of type `produced` (over tv) is used where `expected` is required"""
         if expected is None or not self.mentions(produced, tv):
             return
+        if expected[0] == '?':          # an enclosing call's own inference variable: a source, but not a known one
+            self._soft(out, produced, tv)
+            return
         if produced[0] == 'V':
             if expected[0] == 'W':
                 self._slot(out, produced[1])['soft'] = True
@@ -711,6 +725,23 @@ class Oracle:
             if inst is None or inst[0] != 'P' or len(inst[2]) != len(expected[2]):
                 return
             self._pairwise(inst[2], expected[2], self.variances(expected), tv, out)
+
+    def partial_solution(self, produced, expected, names):
+        """joint inference of nested calls: what the expected type alone fixes for the enclosing call's parameters;
+        the others stay open inference variables ('?', name)"""
+        out = {}
+        try:
+            self.constrain_expected(produced, expected, set(names), out)
+        except (Unknown, NoInfer):
+            out = {}
+        m = {}
+        for n in names:
+            slot = out.get(n)
+            if slot is not None and len(slot['exact']) == 1 and not slot['soft']:
+                m[n] = next(iter(slot['exact']))
+            else:
+                m[n] = ('?', n)
+        return m
 
     def resolve_tv(self, name, slot):
         """what the remaining program determines for one omitted type argument"""
@@ -826,7 +857,7 @@ class Oracle:
                 return b
             if self.is_nothing(b):
                 return a
-            if expected is not None:
+            if expected is not None and not self.has_open(expected):
                 return expected
             raise Unknown('least upper bound of two branch types')
         if isinstance(e, ast.FieldAccess):
@@ -1020,11 +1051,20 @@ class Walker:
         except Unknown as e:
             self.record(kind, node, 'undecided', where, str(e))
         except Narrowed as e:
-            self.record(kind + '-narrowed', node, 'violation', where, str(e))
+            self.record(kind.replace(':from-field', '') + '-narrowed' + (':from-field' if ':from-field' in kind else ''),
+                        node, 'violation', where, str(e))
         except (NoInfer, Mismatch) as e:
             self.record(kind, node, 'violation', where, str(e))
         except RecursionError:
             self.record(kind, node, 'undecided', where, 'reference recursion limit')
+
+    def _from_field(self, e, env):
+        """is the initializer / body a bare name that denotes a field of the enclosing class"""
+        o = self.o
+        e = o.unwrap(e)
+        if not isinstance(e, self.M.ast.Variable) or env.cls is None or env.lookup_var(e.name) is not None:
+            return False
+        return o.member(o.self_type(env.cls), e.name, env, 'field') is not None
 
     def _narrow(self, name, inf, rec, env):
         o = self.o
@@ -1074,7 +1114,7 @@ class Walker:
                                              inf, rec)], o)
                 self._narrow(v.name, inf, rec, env)
             return o.show(inf)
-        self.judge('var-type', v, where, fn)
+        self.judge('var-type' + (':from-field' if self._from_field(v.expr, env) else ''), v, where, fn)
 
     def check_ret(self, f, env, where):
         o = self.o
@@ -1101,7 +1141,8 @@ class Walker:
             if inf != rec:
                 self._narrow(f.name, inf, rec, env)
             return o.show(inf)
-        self.judge('return-type', f, where, fn)
+        self.judge('return-type' + (':from-field' if f.body is not None and self._from_field(f.body, env) else ''),
+                   f, where, fn)
 
     def check_new(self, e, env, expected, where):
         o = self.o
@@ -1211,6 +1252,8 @@ class Walker:
                         exp = ft
                     elif not flagged and k[0] == 'P':
                         exp = o.subst(ft, dict(zip(ci.params, k[2])))
+                    else:
+                        exp = o.subst(ft, o.partial_solution(o.self_type(ci), expected, ci.params))
                 elif ci is None and k is not None and k[0] == 'P' and len(k[2]) == 1:
                     exp = None
                 self.expr(a, env, exp, where)
@@ -1239,7 +1282,7 @@ class Walker:
                             if e.type_args and not e._can_infer_type_args:
                                 ft = o.subst(ft, dict(zip(names, [o.skey(t) for t in e.type_args])))
                             else:
-                                ft = None
+                                ft = o.subst(ft, o.partial_solution(o.subst(ret, m), expected, names))
                     exp = ft
                 self.expr(a, env, exp, where)
             if id(e) in self.ec:
@@ -1702,7 +1745,11 @@ def judge_overwrite(M, before, after, text0, text1, t, program_after):
             rel = _related(M, o, old_t, new_t, conversions=kind in ('variable', 'function'))
             info['unrelated'] = rel is None
             if rel is not None:
-                viol.append(('unrelated', dict(old=old_s, new=new_s, relation=rel, where=opath,
+                cls_ = ('conversion' if 'assignable' in rel else 'same' if 'same' in rel else
+                        'subtype' if 'subtype' in rel else 'supertype' if 'supertype' in rel else 'other')
+                if isinstance(old_t, M.tp.TypeParameter):
+                    cls_ += ':type-variable'
+                viol.append(('unrelated:' + cls_, dict(old=old_s, new=new_s, relation=rel, where=opath,
                                                expected='new type is neither subtype, supertype nor assignable')))
         except Unknown as e:
             info['unrelated'] = 'undecided: %s' % e
@@ -1714,13 +1761,16 @@ def judge_overwrite(M, before, after, text0, text1, t, program_after):
     else:
         ns = _enclosing_names(after, opath)
         nid = m.group(3).split('/')
-        okid = nid[0] == 'global' and nid[-1] == name and (not ns or (len(nid) >= 3 and nid[1] == ns[0]))
+        okid = nid[-1] == name and (nid[0] != 'global' or not ns or (len(nid) >= 3 and nid[1] == ns[0]))
         if old_s is not None and (m.group(1) != old_s or m.group(2) != new_s or not okid):
             viol.append(('message', dict(message=msg, old=old_s, new=new_s, node=name, enclosing='/'.join(['global'] + ns),
                                          expected='names the replaced type, the new type and the mutated node')))
     if text1 == text0:
-        viol.append(('translation-changes', dict(where=opath, old=old_s, new=new_s,
-                                                 expected='translation differs after an injection')))
+        hidden = (kind == 'constructor-call' and bool(getattr(onode.class_type, '_can_infer_type_args', False)) or
+                  kind == 'function-call' and bool(onode._can_infer_type_args))
+        viol.append(('translation-changes:' + ('type-arguments-not-printed' if hidden else kind),
+                     dict(where=opath, old=old_s, new=new_s, inference_flag_of_the_call=hidden,
+                          expected='translation differs after an injection')))
     # "a correct type checker must reject", as far as the local reference decides it
     index = None
     if kind in ('constructor-call', 'function-call') and ch:
@@ -1766,6 +1816,18 @@ def _related(M, o, old_t, new_t, conversions=True):
         while isinstance(eff, tp.TypeParameter) and eff.bound is not None:
             eff = eff.bound
     a, b = o.skey(eff), o.skey(new_t)
+    prim = bool(getattr(eff, 'primitive', False)) or bool(getattr(new_t, 'primitive', False))
+    if prim and o.lang in ('java', 'groovy'):
+        # a primitive type has no subtypes / supertypes: only the assignment conversions relate it to other types
+        if a == b and bool(getattr(eff, 'primitive', False)) == bool(getattr(new_t, 'primitive', False)):
+            return 'the same type'
+        if not conversions:
+            return None
+        if o.assignable(eff, new_t, env):
+            return 'a value of the replaced type is assignable to the new type (%s conversion)' % o.lang
+        if o.assignable(new_t, eff, env):
+            return 'a value of the new type is assignable to the replaced type (%s conversion)' % o.lang
+        return None
     if a == b:
         return 'the same type' + (' (bound of the type variable)' if eff is not old_t else '')
     if o.sub(b, a, env):
@@ -1872,9 +1934,12 @@ def hand_programs(M, lang):
         U = tp.TypeParameter('U')
         ident = fun('ident', [ast.ParameterDeclaration('x', T)], T, ast.Variable('x'), tparams=[T])
         mk = fun('mk', [], U, ast.BottomConstant(U), tparams=[U])
-        return prog(ident, mk, unit(
+        V = tp.TypeParameter('V')
+        pick = fun('pick', [ast.ParameterDeclaration('k', O())], V, ast.BottomConstant(V), tparams=[V])
+        return prog(ident, mk, pick, unit(
             'm', val('a', ast.FunctionCall('ident', [ast.CallArgument(lit())], type_args=[S()]), S()),
-            val('b', ast.FunctionCall('mk', [], type_args=[S()]), S())))
+            val('b', ast.FunctionCall('mk', [], type_args=[S()]), S()),
+            val('c', ast.FunctionCall('pick', [ast.CallArgument(ast.BottomConstant(O()))], type_args=[S()]), S())))
 
     def generic_super(S, lit, O):
         T = tp.TypeParameter('T')
@@ -1929,7 +1994,25 @@ def hand_programs(M, lang):
                             base.get_type())
         return prog(base, d1, d2, unit('m', val('x', c, base.get_type())))
 
-    scen = dict(decl_vs_new=decl_vs_new, ctor_arg=ctor_arg, recursion=recursion, subtype_init=subtype_init,
+    def shadowing(S, lit, O):
+        # a global `v: Any` and a method parameter `v: S`; the local `y: Any = v` is then assigned an Any
+        c = cls('C', funcs=[fun('m', [ast.ParameterDeclaration('v', S())], VOID(), ast.Block([
+            val('y', ast.Variable('v'), ANY(), final=False),
+            ast.Assignment('y', ast.New(ANY(), []))]), METHOD)])
+        return prog(val('v', ast.New(ANY(), []), ANY()), c)
+
+    def bounded_tvar(S, lit, O):
+        # class Box<T : Foo> { fun m(p: T) { val y: T = p } } with Base <- Foo <- SubFoo around the bound
+        base = cls('Base')
+        foo = cls('Foo', supers=[ast.SuperClassInstantiation(base.get_type(), [])])
+        sub = cls('SubFoo', supers=[ast.SuperClassInstantiation(foo.get_type(), [])])
+        other = cls('Other', fields=[ast.FieldDeclaration('e', S())])
+        T = tp.TypeParameter('T', bound=foo.get_type())
+        box = cls('Box', tparams=[T], funcs=[fun('m', [ast.ParameterDeclaration('p', T)], VOID(), ast.Block([
+            val('y', ast.Variable('p'), T)]), METHOD)])
+        return prog(base, foo, sub, other, box)
+
+    scen = dict(bounded_tvar=bounded_tvar, shadowing=shadowing, decl_vs_new=decl_vs_new, ctor_arg=ctor_arg, recursion=recursion, subtype_init=subtype_init,
                 generic_call=generic_call, generic_super=generic_super, field_init=field_init, two_params=two_params,
                 ret_block=ret_block, call_arg=call_arg, dup_targs=dup_targs, shared_type_object=shared_type_object,
                 conditional_init=conditional_init)
@@ -1944,7 +2027,8 @@ def hand_programs(M, lang):
 # 'shared_type_object' (two constructor calls sharing ONE type object) is buildable but not in the fixed list: the
 # generator never aliases the type object of a constructor call (scanned), so it is outside the properties' domain
 HAND = ['decl_vs_new', 'ctor_arg', 'recursion', 'subtype_init', 'generic_call', 'generic_super', 'field_init',
-        'two_params', 'ret_block', 'call_arg', 'dup_targs', 'conditional_init']
+        'two_params', 'ret_block', 'call_arg', 'dup_targs', 'conditional_init', 'shadowing',
+        'bounded_tvar']
 HAND = HAND + [h + '_long' for h in HAND]
 
 
@@ -2000,7 +2084,7 @@ def build_input(M, source, lang, ident):
 
 def _vio(kind, function, fi, detail):
     d = dict(check='bounded[%s]' % kind, function=function)
-    d.update(fi)
+    d.update({k: v for k, v in fi.items() if k in ('prop', 'source', 'lang', 'ident', 'steer', 'erased', 'rng')})
     for k, v in detail.items():
         d[k] = v if isinstance(v, (int, float, bool, str)) or v is None else repr(v)
     return d
@@ -2083,15 +2167,19 @@ def _plan(prop, tier, seed):
             for sd in seeds[lang] + extra[lang]:
                 items.append((prop, 'generated', lang, sd, [dict(steer=s) for s in gsteers], False))
     else:
-        hr = [1000 + i for i in range(4 if quick else 8)] + [rnd.randrange(1 << 30) for _ in range(2 if quick else 4)]
-        gr = [1000 + i for i in range(2 if quick else 6)] + [rnd.randrange(1 << 30) for _ in range(1 if quick else 4)]
+        hr = [1000 + i for i in range(4 if quick else 6)] + [rnd.randrange(1 << 30) for _ in range(2 if quick else 3)]
+        gr = [1000 + i for i in range(2 if quick else 4)] + [rnd.randrange(1 << 30) for _ in range(1 if quick else 2)]
         for lang in LANGS:
             for h in hand:
+                # javac (thorough only): one injection per hand-built Java program
                 items.append((prop, 'hand', lang, h,
-                              [dict(erased=e, rng=r) for e in (False, True) for r in hr], not quick and lang == 'java'))
-            for sd in seeds[lang] + extra[lang]:
+                              [dict(erased=e, rng=r) for e in (False, True) for r in hr],
+                              1 if (not quick and lang == 'java') else 0))
+            for n, sd in enumerate(seeds[lang] + extra[lang]):
+                # javac (thorough only): two injections for each of the first 16 generated Java programs
                 items.append((prop, 'generated', lang, sd,
-                              [dict(erased=e, rng=r) for e in (False, True) for r in gr], not quick and lang == 'java'))
+                              [dict(erased=e, rng=r) for e in (False, True) for r in gr],
+                              2 if (not quick and lang == 'java' and n < 16) else 0))
     return items
 
 
@@ -2130,7 +2218,7 @@ def _work(item):
             if k not in jcache:
                 jcache[k] = javac_accepts(text)
             return jcache[k]
-        if jcount[0] >= 3 or time.time() - t_start > 240:
+        if jcount[0] >= int(use_javac) or time.time() - t_start > 240:
             return None
         jcount[0] += 1
         return javac_accepts(text)
@@ -2238,15 +2326,23 @@ def run(tier, seed, stop_first=False, prop='C03', workers=None):
             samples.extend(r['samples'][:1])
     pref = {'kotlin': 0, 'scala': 1, 'groovy': 2, 'java': 3}
     for chk in sorted(allv):
-        # one representative per kind: the smallest input (hand-built first), Kotlin first (its translation shows it)
-        best = min(allv[chk], key=lambda v: (v.get('source') != 'hand', pref.get(v.get('lang'), 9), str(v.get('ident'))))
-        best = dict(best)
-        best['occurrences'] = len(allv[chk])
-        violations.append(best)
+        # per kind: one representative among the generated programs and one per hand-built scenario (smallest input
+        # first, Kotlin first because its translation shows every removed annotation)
+        groups = {}
+        for v in allv[chk]:
+            g = str(v.get('ident')).replace('_long', '') if v.get('source') == 'hand' else '<generated>'
+            groups.setdefault(g, []).append(v)
+        for g in sorted(groups, key=lambda g: (g == '<generated>', g)):
+            best = min(groups[g], key=lambda v: (pref.get(v.get('lang'), 9), str(v.get('ident')),
+                                                 v.get('steer') is not None, str(v.get('steer')),
+                                                 bool(v.get('erased')), str(v.get('rng'))))
+            best = dict(best)
+            best['occurrences'] = len(groups[g])
+            violations.append(best)
     nprog = len([r for r in results if r is not None and not r['skipped']])
     if prop == 'C03':
         why = agg.pop('why', {})
-        rule = ('%d programs (12 hand-built scenarios x 2 element types x 4 languages; generator seeds %s per language, chosen by generation '
+        rule = ('%d programs (14 hand-built scenarios x 2 element types x 4 languages; generator seeds %s per language, chosen by generation '
                 'cost only%s) x enumeration orders of equally large candidate sets (natural + VERIF_SEED-derived), each '
                 'run through the real TypeErasure on a deep copy. Per run: (1) structural snapshot of every attribute of '
                 'every node, of the symbol table and of every recorded type before/after - only VariableDeclaration.var_type '
@@ -2266,7 +2362,7 @@ def run(tier, seed, stop_first=False, prop='C03', workers=None):
                    agg.get('ret', 0), agg.get('new', 0), agg.get('call', 0), agg.get('ok', 0), agg.get('violation', 0),
                    agg.get('undecided', 0), ', '.join('%s x%d' % kv for kv in sorted(why.items(), key=lambda kv: -kv[1])[:4])))
     else:
-        rule = ('%d programs (12 hand-built scenarios x 2 element types x 4 languages; generator seeds %s per language%s), each both as '
+        rule = ('%d programs (14 hand-built scenarios x 2 element types x 4 languages; generator seeds %s per language%s), each both as '
                 'generated and after TypeErasure, x RNG seeds of the mutation (fixed + VERIF_SEED-derived), run through the '
                 'real TypeOverwriting on a deep copy. When an injection is reported (%d runs): structural diff = exactly '
                 'one declaration\'s declared+recorded type or exactly one explicit type argument (kinds: %s); new type '
@@ -2283,8 +2379,8 @@ def run(tier, seed, stop_first=False, prop='C03', workers=None):
                    ', '.join('%s %d' % (k[5:], v) for k, v in sorted(agg.items()) if k.startswith('kind:')),
                    agg.get('unrelated:yes', 0), agg.get('unrelated:undecided', 0), agg.get('not-injected', 0),
                    agg.get('reject:rejects', 0), agg.get('reject:undecided', 0), agg.get('reject:accepts', 0),
-                   ('; real javac on the Java translations of up to 3 distinct injections per Java program whose input '
-                    'compiles: rejects %d, accepts %d' % (agg.get('javac:rejects', 0), agg.get('javac:accepts', 0)))
+                   ('; real javac on the Java translations of one injection per hand-built and two per each of the '
+                    'first 16 generated Java programs whose input compiles: rejects %d, accepts %d' % (agg.get('javac:rejects', 0), agg.get('javac:accepts', 0)))
                    if tier != 'quick' else '; javac is only run in the thorough tier'))
     out = dict(evaluations=evals, distinct_nontrivial=len(keys), rule=rule, samples=samples, violations=violations,
                exhaustive=False, programs=nprog, counts={k: v for k, v in agg.items() if not isinstance(v, dict)})
